@@ -423,34 +423,35 @@ package stree
 //@   role compare ord
 //@   ghostret from imap[int]
 //@   panics when β < 0 || β > 1000
-//@   ensures  [C01] inv: result != nil && fresh(result) && treeInv(result) && sizeInv(result) && result.compare == compare
-//@   ensures  [C01] all: forall i int :: {keys[i]} 0 <= i && i < len(keys) ==> rank(compare, keys[i]) in result.elems
-//@   ensures  [C01] only: forall k int :: {k in result.elems} k in result.elems ==> 0 <= from[k] && from[k] < len(keys) && rank(compare, keys[from[k]]) == k && result.vals[k] == keys[from[k]]
-//@   ensures  [C01] input: unchanged(elems(keys))
+//@   ensures  [C01,C04] inv: result != nil && fresh(result) && treeInv(result) && sizeInv(result) && result.compare == compare
+//@   ensures  [C01,C04] all: forall i int :: {keys[i]} 0 <= i && i < len(keys) ==> rank(compare, keys[i]) in result.elems
+//@   ensures  [C01,C04] only: forall k int :: {k in result.elems} k in result.elems ==> 0 <= from[k] && from[k] < len(keys) && rank(compare, keys[from[k]]) == k && result.vals[k] == keys[from[k]]
+//@   ensures  [C01,C04] input: unchanged(elems(keys))
+//@   ensures  [C01,C04] none: len(keys) == 0 ==> result.root == nil && result.size == 0 && result.max == 0
 //@   call extract#1: cmp = compare
-//@   loop 1: invariant [C01] made: 0 <= it1 && len(nodes) == len(keys) && fresh(nodes) && unchanged(elems(keys)) && tree != nil && fresh(tree) && tree.root == nil && tree.compare == compare && tree.size == 0 && tree.max == 0
-//@   loop 1: invariant [C01] nodes: forall k int :: {nodes[k]} 0 <= k && k < it1 ==> nodes[k] != nil && fresh(nodes[k]) && nodes[k].X == keys[k]
-//@   loop 1: invariant [C01] apart: forall a int, b int :: {nodes[a], nodes[b]} 0 <= a && a < b && b < it1 ==> nodes[a] != nodes[b]
+//@   loop 1: invariant [C01,C04] made: 0 <= it1 && len(nodes) == len(keys) && fresh(nodes) && unchanged(elems(keys)) && tree != nil && fresh(tree) && tree.root == nil && tree.compare == compare && tree.size == 0 && tree.max == 0
+//@   loop 1: invariant [C01,C04] nodes: forall k int :: {nodes[k]} 0 <= k && k < it1 ==> nodes[k] != nil && fresh(nodes[k]) && nodes[k].X == keys[k]
+//@   loop 1: invariant [C01,C04] apart: forall a int, b int :: {nodes[a], nodes[b]} 0 <= a && a < b && b < it1 ==> nodes[a] != nodes[b]
 //@   at before "if len(keys) != 0": ghost tree.elems = emptyset(tree.elems)
 //@   at before "if len(keys) != 0": ghost from = lambda k int :: 0
 //@   at loop 1 exit: ghost n0 = snap(nodes)
 //@   at after "slices.SortFunc(nodes, func(a, b *node[T]) int { return compare(a.X, b.X) })": ghost sp = SortFunc_p
 //@   at after "slices.SortFunc(nodes, func(a, b *node[T]) int { return compare(a.X, b.X) })": ghost sq = SortFunc_q
 //@   at after "slices.SortFunc(nodes, func(a, b *node[T]) int { return compare(a.X, b.X) })": ghost n1 = snap(nodes)
-//@   at after "slices.SortFunc(nodes, func(a, b *node[T]) int { return compare(a.X, b.X) })": assert [C01] forall k int :: {nodes[k]} 0 <= k && k < len(nodes) ==> 0 <= sp[k] && sp[k] < len(nodes) && nodes[k] == n0[addr(nodes, sp[k])] && nodes[k] != nil && fresh(nodes[k]) && nodes[k].X == keys[sp[k]] && sq[sp[k]] == k
-//@   at after "slices.SortFunc(nodes, func(a, b *node[T]) int { return compare(a.X, b.X) })": assert [C01] forall a int, b int :: {nodes[a], nodes[b]} 0 <= a && a < b && b < len(nodes) ==> nodes[a] != nodes[b] && rank(compare, nodes[a].X) <= rank(compare, nodes[b].X)
-//@   at after "slices.SortFunc(nodes, func(a, b *node[T]) int { return compare(a.X, b.X) })": assert [C01] forall i int :: {keys[i]} 0 <= i && i < len(keys) ==> n0[addr(nodes, i)] != nil && n0[addr(nodes, i)].X == keys[i] && 0 <= sq[i] && sq[i] < len(keys) && n1[addr(nodes, sq[i])] == n0[addr(nodes, i)]
+//@   at after "slices.SortFunc(nodes, func(a, b *node[T]) int { return compare(a.X, b.X) })": assert [C01,C04] forall k int :: {nodes[k]} 0 <= k && k < len(nodes) ==> 0 <= sp[k] && sp[k] < len(nodes) && nodes[k] == n0[addr(nodes, sp[k])] && nodes[k] != nil && fresh(nodes[k]) && nodes[k].X == keys[sp[k]] && sq[sp[k]] == k
+//@   at after "slices.SortFunc(nodes, func(a, b *node[T]) int { return compare(a.X, b.X) })": assert [C01,C04] forall a int, b int :: {nodes[a], nodes[b]} 0 <= a && a < b && b < len(nodes) ==> nodes[a] != nodes[b] && rank(compare, nodes[a].X) <= rank(compare, nodes[b].X)
+//@   at after "slices.SortFunc(nodes, func(a, b *node[T]) int { return compare(a.X, b.X) })": assert [C01,C04] forall i int :: {keys[i]} 0 <= i && i < len(keys) ==> n0[addr(nodes, i)] != nil && n0[addr(nodes, i)].X == keys[i] && 0 <= sq[i] && sq[i] < len(keys) && n1[addr(nodes, sq[i])] == n0[addr(nodes, i)]
 //@   at after "tree.max = len(nodes)": ghost cs = CompactFunc_src
 //@   at after "tree.max = len(nodes)": ghost ck = CompactFunc_keep
-//@   at after "tree.max = len(nodes)": assert [C01] forall i int :: {nodes[i]} 0 <= i && i < len(nodes) ==> 0 <= cs[i] && cs[i] < len(keys) && nodes[i] == n1[addr(nodes, cs[i])] && nodes[i] != nil && fresh(nodes[i]) && nodes[i].X == keys[sp[cs[i]]]
-//@   at after "tree.max = len(nodes)": assert [C01] forall a int, b int :: {nodes[a], nodes[b]} 0 <= a && a < b && b < len(nodes) ==> cs[a] < cs[b] && nodes[a] != nodes[b] && rank(compare, nodes[a].X) <= rank(compare, nodes[b].X)
-//@   at after "tree.max = len(nodes)": assert [C01] forall a int, b int :: {nodes[a], nodes[b]} 0 <= a && b == a + 1 && b < len(nodes) ==> rank(compare, nodes[a].X) < rank(compare, nodes[b].X)
-//@   at after "tree.max = len(nodes)": assert [C01] forall a int, b int :: {nodes[a], nodes[b]} 0 <= a && a < b && b < len(nodes) ==> rank(compare, nodes[a].X) < rank(compare, nodes[b].X)
+//@   at after "tree.max = len(nodes)": assert [C01,C04] forall i int :: {nodes[i]} 0 <= i && i < len(nodes) ==> 0 <= cs[i] && cs[i] < len(keys) && nodes[i] == n1[addr(nodes, cs[i])] && nodes[i] != nil && fresh(nodes[i]) && nodes[i].X == keys[sp[cs[i]]]
+//@   at after "tree.max = len(nodes)": assert [C01,C04] forall a int, b int :: {nodes[a], nodes[b]} 0 <= a && a < b && b < len(nodes) ==> cs[a] < cs[b] && nodes[a] != nodes[b] && rank(compare, nodes[a].X) <= rank(compare, nodes[b].X)
+//@   at after "tree.max = len(nodes)": assert [C01,C04] forall a int, b int :: {nodes[a], nodes[b]} 0 <= a && b == a + 1 && b < len(nodes) ==> rank(compare, nodes[a].X) < rank(compare, nodes[b].X)
+//@   at after "tree.max = len(nodes)": assert [C01,C04] forall a int, b int :: {nodes[a], nodes[b]} 0 <= a && a < b && b < len(nodes) ==> rank(compare, nodes[a].X) < rank(compare, nodes[b].X)
 //@   at after "tree.root = extract(nodes)": ghost tree.elems = ite(tree.root == nil, emptyset(tree.elems), tree.root.keys)
 //@   at after "tree.root = extract(nodes)": ghost tree.vals = tree.root.rep
 //@   at after "tree.root = extract(nodes)": ghost from = lambda k int :: sp[cs[extract_ki[k]]]
-//@   at after "tree.max = len(nodes)": assert [C01] forall i int :: {keys[i]} 0 <= i && i < len(keys) ==> 0 <= sq[i] && sq[i] < len(keys) && n1[addr(nodes, sq[i])] != nil && n1[addr(nodes, sq[i])].X == keys[i] && 0 <= ck[sq[i]] && ck[sq[i]] < len(nodes) && rank(compare, nodes[ck[sq[i]]].X) == rank(compare, keys[i])
-//@   at after "tree.root = extract(nodes)": assert [C01] forall i int :: {keys[i]} 0 <= i && i < len(keys) ==> 0 <= sq[i] && sq[i] < len(keys) && 0 <= ck[sq[i]] && ck[sq[i]] < len(nodes) && rank(compare, nodes[ck[sq[i]]].X) == rank(compare, keys[i])
+//@   at after "tree.max = len(nodes)": assert [C01,C04] forall i int :: {keys[i]} 0 <= i && i < len(keys) ==> 0 <= sq[i] && sq[i] < len(keys) && n1[addr(nodes, sq[i])] != nil && n1[addr(nodes, sq[i])].X == keys[i] && 0 <= ck[sq[i]] && ck[sq[i]] < len(nodes) && rank(compare, nodes[ck[sq[i]]].X) == rank(compare, keys[i])
+//@   at after "tree.root = extract(nodes)": assert [C01,C04] forall i int :: {keys[i]} 0 <= i && i < len(keys) ==> 0 <= sq[i] && sq[i] < len(keys) && 0 <= ck[sq[i]] && ck[sq[i]] < len(nodes) && rank(compare, nodes[ck[sq[i]]].X) == rank(compare, keys[i])
 //@
 // extract builds a search tree from a slice of pairwise different nodes sorted by strictly ascending rank (what New
 // passes after sorting and compacting): the ghost fields of every node of the slice are set on the way back up.
